@@ -732,6 +732,7 @@ func (e *Exec) afterBlock(f *Frame, b *ssa.BasicBlock, st *State, reach Term) {
 		if li := f.loops[s]; li != nil && s.Dominates(b) {
 			e.backEdge(f, li, b, st, ec)
 			e.failStopAtEdge(f, li, ec, "next-iteration")
+			e.recordFailAtBackEdge(f, li, b, ec)
 		}
 		for _, li := range e.loopsOf(f, b) {
 			if !li.blocks[s] && b != li.header {
